@@ -1,10 +1,11 @@
 #!/bin/bash
 # development tool: evaluate seeded changes in parallel, each slot in a private mount namespace whose /repo and /verif are
 # copies (so the registered commands run unmodified and /repo itself is never touched).
-# usage: eval_ns.sh <slot> <tier> <Cxx:n> [<Cxx:n> ...]     results: /tmp/eval<slot>/verif/seeded/<Cxx>-<n>/meta.json
+# usage: eval_ns.sh <slot> <tier> <Cxx:n[:Cyy,Czz]> ...     (checks default to the property's own)
+# results: /tmp/eval<slot>/verif/seeded/<Cxx>-<n>/meta.json (merge with tools/merge_eval.py)
 slot=$1; tier=$2; shift 2
 d=/tmp/eval$slot
 rm -rf $d; mkdir -p $d
 rsync -a --exclude target /repo/ $d/repo/
-rsync -a --exclude fuzz/target --exclude .build/fuzz-run --exclude .build/logs /verif/ $d/verif/
-unshare -m bash -c "mount --bind $d/repo /repo && mount --bind $d/verif /verif && cd /verif && for x in $*; do c=\${x%%:*}; n=\${x##*:}; python3 /verif/tools/seed2.py \$c \$n --no-confirm --tier $tier; done"
+rsync -a --exclude fuzz/target --exclude .build/fuzz-run --exclude .build/logs --exclude .build/fuzz /verif/ $d/verif/
+unshare -m bash -c "mount --bind $d/repo /repo && mount --bind $d/verif /verif && cd /verif && for x in $*; do IFS=: read c n ks <<< \"\$x\"; python3 /verif/tools/seed2.py \$c \$n --no-confirm --tier $tier \${ks//,/ }; done"
